@@ -145,10 +145,12 @@ func ResolveStateConflictsV2(
 			if _, ok := visited[authEventID]; ok {
 				continue
 			}
+			// Marked before descending: in room versions 1 and 2 an event can cite
+			// itself, or two events each other, as auth events.
+			visited[authEventID] = struct{}{}
 			if event, ok := r.conflictedEventMap[authEventID]; ok {
 				events = append(events, fullControlSet(event)...)
 			}
-			visited[authEventID] = struct{}{}
 		}
 		return events
 	}
@@ -305,10 +307,12 @@ func ResolveStateConflictsV2New(
 			if _, ok := visited[authEventID]; ok {
 				continue
 			}
+			// Marked before descending: in room versions 1 and 2 an event can cite
+			// itself, or two events each other, as auth events.
+			visited[authEventID] = struct{}{}
 			if event, ok := r.conflictedEventMap[authEventID]; ok {
 				events = append(events, fullControlSet(event)...)
 			}
-			visited[authEventID] = struct{}{}
 		}
 		return events
 	}
@@ -688,8 +692,18 @@ func (r *stateResolverV2) createPowerLevelMainline() []PDU {
 	var mainline []PDU
 
 	// Define our iterator function.
+	// The events on the path from the resolved power level event to the one
+	// being looked at: power level events that cite each other (possible in
+	// room versions 1 and 2, where the sender picks the event ID) must not
+	// send the iterator round in circles.
+	onPath := map[string]struct{}{}
 	var iter func(event PDU)
 	iter = func(event PDU) {
+		if _, cyclic := onPath[event.EventID()]; cyclic {
+			return
+		}
+		onPath[event.EventID()] = struct{}{}
+		defer delete(onPath, event.EventID())
 		// Append this event to the beginning of the mainline.
 		mainline = append(mainline, nil)
 		copy(mainline[1:], mainline)
@@ -735,9 +749,16 @@ func (r *stateResolverV2) getFirstPowerLevelMainlineEvent(event PDU) (
 		return pos, ok
 	}
 
-	// Define our iterator function.
+	// Define our iterator function. As in createPowerLevelMainline it keeps
+	// track of the path it came along so that cyclic citations end the walk.
+	onPath := map[string]struct{}{}
 	var iter func(event PDU)
 	iter = func(event PDU) {
+		if _, cyclic := onPath[event.EventID()]; cyclic {
+			return
+		}
+		onPath[event.EventID()] = struct{}{}
+		defer delete(onPath, event.EventID())
 		// In much the same way as we do in createPowerLevelMainline, we loop
 		// through the event's auth events, checking that it exists in our supplied
 		// auth event map and finding power level events.
